@@ -106,12 +106,17 @@ ValidArgs(lp, a, g) ==
 \* C07: the floating-point LP is the coefficient-wise image of the rational LP
 NumImage(q, r) == IF BRIsFinite(q) /\ BRIsFinite(r) THEN BRAdjacentDouble(q, r) ELSE q = r
 SeqImage(qs, rs) == Len(qs) = Len(rs) /\ \A k \in 1..Len(qs) : NumImage(qs[k], rs[k])
-RowImage(qv, rv, nc) == \A j \in 0..(nc - 1) : NumImage(Coef(qv, j), Coef(rv, j))
-InSync(r, q) ==
-   /\ NR(r) = NR(q) /\ NC(r) = NC(q) /\ r.sense = q.sense
-   /\ SeqImage(q.lhs, r.lhs) /\ SeqImage(q.rhs, r.rhs)
-   /\ SeqImage(q.lo, r.lo) /\ SeqImage(q.up, r.up) /\ SeqImage(q.obj, r.obj)
-   /\ \A i \in 1..NR(r) : RowImage(q.rows[i], r.rows[i], NC(r))
+\* matrix coefficients: changeElementReal drops values with |v| <= epsilon_zero (1e-16); deliberate deviation of the code
+CoefImage(q, r) == NumImage(q, r) \/ (r = "0" /\ BRLeq(BRAbs(q), "1/10000000000000000"))
+RowImage(qv, rv, nc) == \A j \in 0..(nc - 1) : CoefImage(Coef(qv, j), Coef(rv, j))
+InSyncFails(r, q) ==
+   IF NR(r) # NR(q) \/ NC(r) # NC(q) THEN {"Image:Dims"}
+   ELSE Fail("Image:Sense", r.sense = q.sense)
+        \cup Fail("Image:Lhs", SeqImage(q.lhs, r.lhs)) \cup Fail("Image:Rhs", SeqImage(q.rhs, r.rhs))
+        \cup Fail("Image:Lower", SeqImage(q.lo, r.lo)) \cup Fail("Image:Upper", SeqImage(q.up, r.up))
+        \cup Fail("Image:Obj", SeqImage(q.obj, r.obj))
+        \cup Fail("Image:Matrix", \A i \in 1..NR(r) : RowImage(q.rows[i], r.rows[i], NC(r)))
+InSync(r, q) == InSyncFails(r, q) = {}
 \* exact image (real arguments entered through the real interface are doubles: no rounding at all)
 IsDoubleLP(p) ==
    /\ \A k \in 1..NR(p) : BRIsDouble(p.lhs[k]) /\ BRIsDouble(p.rhs[k])
